@@ -194,6 +194,7 @@ impl Prop for C06 {
         for step in 0..n {
             let mut expect_err: Option<&str> = None;
             let mut any_err_ok = false;
+            let mut must_err_any = false;
             let mut f = forced.pop_front();
             let mut choice = match &f {
                 Some(Forced::Store(..)) => 3,
@@ -257,7 +258,7 @@ impl Prop for C06 {
                         (0..nd)
                             .map(|d| {
                                 let b = bounds.as_ref().map(|b| b[d]).unwrap_or(10);
-                                let x = *rng.pick(&[-1, 0, 0, 1, 1, b - 1, b, b, b + 1, 10, 11, 2, 3, 12, 23, 32767]);
+                                let x = *rng.pick(&[-1, 0, 0, 1, 1, b - 1, b, b, b + 1, 10, 11, 2, 3, 12, 23, 32767, 32767, 32768, 40000]);
                                 // a negative subscript on first use: whether the array then exists is open
                                 if bounds.is_none() && x < 0 { 0 } else { x }
                             })
@@ -276,7 +277,17 @@ impl Prop for C06 {
                     let v = next_val % 200;
                     let (nt, nv) = num_rhs(rng, next_val, ty == 0);
                     let rhs = if ty == 3 { format!("\"s{}\"", v) } else { nt };
-                    if subs.iter().any(|x| *x < 0) {
+                    if bounds.is_none() && m.dims_unknown(name) {
+                        // the model does not know whether this array exists, nor with which bounds: not judged
+                        any_err_ok = true;
+                    } else if subs.iter().any(|x| *x > 32767) {
+                        // beyond the Integer range: some error (OVERFLOW or SUBSCRIPT OUT OF RANGE), nothing stored
+                        any_err_ok = true;
+                        must_err_any = true;
+                        if bounds.is_none() {
+                            m.unknown_dims(name);
+                        }
+                    } else if subs.iter().any(|x| *x < 0) {
                         // negative subscript: an error, and whether the array got auto-dimensioned is open
                         any_err_ok = true;
                         expect_err = Some("SUBSCRIPT OUT OF RANGE");
@@ -299,7 +310,14 @@ impl Prop for C06 {
                 6 => {
                     saw_array = true;
                     let (name, nd, _) = ARRAYS[if let Some(Forced::Dim(ai, _)) = &f { *ai } else { rng.usize(ARRAYS.len()) }];
-                    let b: Vec<i64> = if let Some(Forced::Dim(_, b)) = &f { b.clone() } else { (0..nd).map(|_| rng.range(0, 12)).collect() };
+                    let b: Vec<i64> = if let Some(Forced::Dim(_, b)) = &f {
+                        b.clone()
+                    } else if nd == 1 && rng.chance(1, 8) {
+                        // the largest bound there is: subscript 32767 must exist, 32768 must not
+                        vec![*rng.pick(&[32767i64, 32767, 32766])]
+                    } else {
+                        (0..nd).map(|_| rng.range(0, 12)).collect()
+                    };
                     if m.dims.contains_key(name) {
                         expect_err = Some("REDIMENSIONED ARRAY");
                     } else if m.dims_unknown(name) {
@@ -415,6 +433,15 @@ impl Prop for C06 {
             }
             let kind = stmt.split(|c: char| c == ' ' || c == '=' || c == '(').next().unwrap_or("").to_string();
             let kind = if stmt.starts_with(|c: char| c.is_ascii_digit()) { "line-edit".to_string() } else if stmt.starts_with("DIM") || stmt.starts_with("ERASE") || stmt.starts_with("SWAP") || stmt.starts_with("DEF") || stmt == "CLEAR" { kind } else if stmt.contains('(') { "array-store".to_string() } else { "scalar-store".to_string() };
+            if must_err_any && err.is_none() {
+                ctx.violation(
+                    "wrong-outcome",
+                    "vars:outcome:subscript-beyond-integer-range",
+                    &format!("{:?}: a subscript above 32767 must be refused, but no error was reported", stmt),
+                    &text,
+                );
+                return;
+            }
             if !any_err_ok {
                 match (expect_err, &err) {
                     (Some(w), Some(g)) if w == g => {}
